@@ -16,6 +16,13 @@ PROPS = {
                 "Non-trivial: leaf with a tombstone and a sibling flag, or a node at (max-1..max) occupancy with a maximum-size value / internal node with >=289 cells; "
                 "distinct by canonical case JSON (FNV-64).",
         "assumptions": ["keys arrive in ascending order (the engine's shared counter), so the offset array is the identity; non-identity offset arrays are not generated"],
+        "technique": "property-based testing (rapid): generated nodes, encode/decode round-trip + file-store round-trip + idempotence oracle; bounded-exhaustive small shapes",
+        "level_text": "Random and bounded-exhaustive search over node shapes the engine's mutators can build, each checked against three round-trip oracles (decode(encode), cold fetch after update, byte-idempotent re-encode). It gives high confidence that no field is dropped, reordered or mis-sized for producible nodes up to maximum occupancy; it is search, not proof.",
+        "level_note": "Trusted: the logical-content projection in the test (reads the node structs in-package); ascending-key assumption (offset arrays are the identity). Crash/torn writes are C04's business, not covered here.",
         "exhaustive_note": "all 1036 leaf shapes with <=3 cells over sizes {0,1,400} x tombstone subsets x 4 sibling-flag combinations",
     },
 }
+
+HOOK_COMMITS = ["7ca683e"]
+
+NOT_APPLICABLE = {}
